@@ -37,13 +37,16 @@ struct Obs {
     read_eq: i64,
     read_used: i64,
     from_bytes_eq: i64,
+    /// the same abstract value built by a different construction history (longer buffer first, then the setter):
+    /// 1 = equal to the directly constructed value, same bytes, survives the round trip; 0 = not; -1 = no such API
+    alt: i64,
 }
 impl Obs {
     fn json(&self, id: &str, ty: &str, f: &[i64]) -> Value {
         json!({"ev": "wire", "id": id, "type": ty, "f": f, "to_bytes": self.to_bytes, "write": self.write,
                "slice": self.slice.clone().unwrap_or_default(), "has_slice": if self.slice.is_some() { 1 } else { 0 },
                "hlen": self.hlen, "dec_f": self.dec_f, "rest": self.rest, "eq": self.eq, "read_eq": self.read_eq, "read_used": self.read_used,
-               "from_bytes_eq": self.from_bytes_eq})
+               "from_bytes_eq": self.from_bytes_eq, "alt": self.alt})
     }
 }
 const TAIL: [u8; 3] = [0xEE, 0xEE, 0xEE];
@@ -64,7 +67,7 @@ macro_rules! common {
 }
 
 pub fn value_case(id: &str, ty: &str, f: &[i64]) -> Value {
-    let mut o = Obs { from_bytes_eq: -1, read_eq: -1, read_used: -1, ..Default::default() };
+    let mut o = Obs { from_bytes_eq: -1, read_eq: -1, read_used: -1, alt: -1, ..Default::default() };
     match ty {
         "eth" => {
             let h = Ethernet2Header { destination: arr::<6>(&f[0..]), source: arr::<6>(&f[6..]), ether_type: EtherType(f[12] as u16) };
@@ -158,6 +161,12 @@ pub fn value_case(id: &str, ty: &str, f: &[i64]) -> Value {
             o.dec_f = f_auth_h(&d); o.rest = rest.len() as i64 - 3; o.eq = b2i(d == h);
             let mut c = Cursor::new(&wt[..]);
             o.read_eq = b2i(IpAuthHeader::read(&mut c).map(|x| x == h).unwrap_or(false)); o.read_used = c.position() as i64;
+            // same value through a longer ICV that is then replaced
+            let mut h2 = IpAuthHeader::new(IpNumber(f[0] as u8), be32(&f[1..]), be32(&f[5..]), &[0xEEu8; 1016]).unwrap();
+            h2.set_raw_icv(&u8s(&f[9..])).unwrap();
+            let b2 = h2.to_bytes();
+            o.alt = b2i(h2 == h && b2[..] == o.to_bytes[..] && IpAuthHeader::from_slice(&b2).map(|x| x.0 == h2).unwrap_or(false)
+                        && format!("{:?}", h2) == format!("{:?}", h));
         }
         "ipv6" => {
             let fl = ((f[1] as u32) << 16) | ((f[2] as u32) << 8) | f[3] as u32;
@@ -215,6 +224,12 @@ pub fn value_case(id: &str, ty: &str, f: &[i64]) -> Value {
             o.rest = rest.len() as i64 - 3; o.eq = b2i(d == h);
             let mut c = Cursor::new(&wt[..]);
             o.read_eq = b2i(Ipv6RawExtHeader::read(&mut c).map(|x| x == h).unwrap_or(false)); o.read_used = c.position() as i64;
+            // same value through a longer payload that is then replaced
+            let mut h2 = Ipv6RawExtHeader::new_raw(IpNumber(f[0] as u8), &[0xEEu8; Ipv6RawExtHeader::MAX_PAYLOAD_LEN]).unwrap();
+            h2.set_payload(&u8s(&f[1..])).unwrap();
+            let b2 = h2.to_bytes();
+            o.alt = b2i(h2 == h && b2[..] == o.to_bytes[..] && Ipv6RawExtHeader::from_slice(&b2).map(|x| x.0 == h2).unwrap_or(false)
+                        && format!("{:?}", h2) == format!("{:?}", h));
         }
         "icmp6" => {
             let h = Icmpv6Header { icmp_type: Icmpv6Type::Unknown { type_u8: f[0] as u8, code_u8: f[1] as u8, bytes5to8: arr::<4>(&f[3..]) }, checksum: f[2] as u16 };
